@@ -1548,9 +1548,6 @@ func (x *c47Run) checkResponse(rr c47RResp, kind string, names []xml.Name, senti
 		x.ev("values_compared", 1)
 		if gc := c47Canon(rp.Kids); gc != st.Canon {
 			cls := c47DiffClass(st.Kids, rp.Kids)
-			if c47HasSameName(st.Kids, n) {
-				cls += ":value-nests-element-named-like-property"
-			}
 			if n.Space != "" && c47EqualButAdopted(st.Kids, rp.Kids, n.Space) {
 				// the only difference: elements that were in no namespace came back in
 				// the namespace of the property element
@@ -1904,9 +1901,17 @@ func TestVerif_C47(t *testing.T) {
 		r.EvalHash(nt, sig)
 	})
 
-	r.CasesParallel("single", r.N(2400, 36000), 0, single)
-	r.CasesParallel("history", r.N(300, 4800), 0, history)
+	r.CasesParallel("single", r.N(2400, 24000), 0, single)
+	r.CasesParallel("history", r.N(300, 3200), 0, history)
 
+	for _, code := range []string{"400", "403", "405", "500"} {
+		if n := r.EventCount("proppatch_on_root_refused_" + code); n > 0 {
+			r.Note("PROPPATCH on the root collection of memFS was answered %s %d times (memFS does not open its root for writing, so Handler cannot patch it); which resources accept dead properties is outside the statement: counted, not judged, and each refusal was followed by a PROPFIND showing that nothing was stored", code, n)
+		}
+	}
+	if n := r.EventCount("lang_inherited_from_set_or_propertyupdate_dropped"); n > 0 {
+		r.Note("xml:lang given only on DAV:set / DAV:propertyupdate was not kept %d times (kept %d times); the package documents DAV:prop and the property element as the sources of Property.Lang: counted, not judged", n, r.EventCount("lang_inherited_from_set_or_propertyupdate_kept"))
+	}
 	r.Require("directed_cases", int64(len(c47Directed)))
 	r.Require("proppatch_requests", 4000)
 	r.Require("values_compared", 5000)
